@@ -82,7 +82,24 @@ ARITH = [('max(%s) - min(%s)', lambda v: float(max(v) - min(v))), ('sum(%s) / co
          ('avg(%s) - min(%s)', lambda v: sum(v) / len(v) - min(v)), ('(max(%s) - min(%s)) / 2', lambda v: (max(v) - min(v)) / 2.0)]
 
 
+# aggregates over two expressions that read alike, side by side in one query (each must get its own argument values)
+TWINS = [('size - 100', lambda e: e['size'] - 100, '-size - 100', lambda e: -e['size'] - 100),
+         ('size + 7', lambda e: e['size'] + 7, '-size + 7', lambda e: -e['size'] + 7),
+         ('size - hardlinks - 1', lambda e: e['size'] - e['hardlinks'] - 1, 'size - (hardlinks - 1)', lambda e: e['size'] - (e['hardlinks'] - 1)),
+         ('size / 2 / 2', lambda e: Fraction(e['size'], 4), 'size / (2 / 2)', lambda e: Fraction(e['size'])),
+         ('size * 2 + 1', lambda e: e['size'] * 2 + 1, 'size * (2 + 1)', lambda e: e['size'] * 3),
+         ('(size + 1) * 2', lambda e: (e['size'] + 1) * 2, 'size + 1 * 2', lambda e: e['size'] + 2),
+         ('size - length(name)', lambda e: e['size'] - e['length(name)'], 'length(name) - size', lambda e: e['length(name)'] - e['size']),
+         ('size - (hardlinks + 1)', lambda e: e['size'] - e['hardlinks'] - 1, 'size - hardlinks + 1', lambda e: e['size'] - e['hardlinks'] + 1),
+         ('hardlinks - size - 1', lambda e: e['hardlinks'] - e['size'] - 1, '-hardlinks - size - 1', lambda e: -e['hardlinks'] - e['size'] - 1),
+         ('size + 1', lambda e: e['size'] + 1, 'size +1', lambda e: e['size'] + 1), ('size', lambda e: e['size'], 'SIZE', lambda e: e['size']),
+         ('size - 1 - 1', lambda e: e['size'] - 2, 'size - (1 - 1)', lambda e: e['size'])]
+
+
 def groups(tier, seed):
+    for tname in ('three', 'mixed', 'two'):
+        for wname in ('none', 'files'):
+            yield {'kind': 'twins', 'tree': tname, 'where': wname, 'arg': 'size', 'cases': []}
     # arithmetic over aggregates (the operand is computed per row only inside the aggregate)
     for tname in ('three', 'mixed', 'two'):
         for arg in ('size', 'length(name)', 'hardlinks'):
@@ -112,6 +129,8 @@ def groups(tier, seed):
 
 
 def single(case):
+    if case.get('kind') == 'twins':
+        return {'kind': 'twins', 'tree': case['tree'], 'where': case['where'], 'arg': 'size', 'cases': [], 'only': case['query']}
     return {'tree': case['tree'], 'arg': case['arg'], 'where': case['where'],
             'cases': [{'funcs': case['funcs'], 'style': case['style']}]}
 
@@ -186,6 +205,30 @@ def eval_group(env, group, tier):
         m_diff = len(o.rows())
         if o.rc != 0 or m_diff != len(ents):
             raise core.MachineryError('C07 model/differential row count disagree: %d vs %d %r' % (m_diff, len(ents), o.brief()))
+        if group.get('kind') == 'twins':
+            for a, fa, b_, fb in TWINS:
+                for first, second in (((a, fa), (b_, fb)), ((b_, fb), (a, fa))):
+                    for fns in (('sum', 'sum'), ('min', 'max'), ('avg', 'sum'), ('max', 'min')):
+                        cols = ['%s(%s)' % (fns[0], first[0]), '%s(%s)' % (fns[1], second[0])]
+                        q = ', '.join(cols) + ' from .' + wclause + ' into list'
+                        if group.get('only') is not None and group['only'] != q:
+                            continue
+                        o = env.run([q], cwd=root)
+                        res = {'case': {'kind': 'twins', 'tree': group['tree'], 'where': wname, 'query': q}, 'nt': len(ents) >= 2, 'layer': 'twin-arguments'}
+                        rows = o.rows(2)
+                        want = [expected(fns[0], [first[1](e) for e in ents]), expected(fns[1], [second[1](e) for e in ents])]
+                        ok = o.rc == 0 and not o.err and rows is not None and len(rows) == 1
+                        if ok:
+                            try:
+                                ok = all(close(g, w) for g, w in zip(rows[0], want))
+                            except ValueError:
+                                ok = False
+                        if not ok:
+                            res.update(status='viol', cls='twin-arguments', detail={'query': q, 'got': rows, 'expected': [str(float(w)) for w in want]}, sig=('twin',))
+                        else:
+                            res.update(status='ok', sig=tuple(rows[0]))
+                        outs.append(res)
+            return outs
         for c in group['cases']:
             if c['funcs'][0].startswith('arith:'):
                 tmpl, fexp = ARITH[int(c['funcs'][0][6:])]
